@@ -44,6 +44,8 @@ REQUIRED = [
     "buffered_cases",
     "copy_cases",
     "oneshot_cases",
+    "interleaved_streams_on_one_protocol",
+    "coalesced_stream_larger_than_limit",
 ]
 EXHAUSTIVE = {"quick": False, "thorough": False}
 WATCHDOG = {"quick": 900, "thorough": 7200}
@@ -296,6 +298,39 @@ def run_shard(params: dict, ctx) -> None:
                         cp = (cfg.stream_protocol(small_limit), cfg.buffered_protocol(small_limit))
                         for cuts in ([], list(ends2[2::3][:-1]) if len(ends2) > 3 else [], gen.random_cuts(rng, len(st2)), [c for c in range(small_limit + 1, len(st2), small_limit + 1)]):
                             check_one(ctx, cfg, cp, many, st2, ends2, cuts, rng.choice(gen.HINTS), [params["seed"], it, "coalesced", small_limit])
+            if it < 2:
+                # two connections served by ONE protocol object (what every server does): their chunks interleave, and a third
+                # stream is abandoned in the middle of a frame; nothing of one stream may show up in another
+                pa = [cfg.gen_packet(rng) for _ in range(rng.randint(1, 3))]
+                pb = [cfg.gen_packet(rng) for _ in range(rng.randint(1, 3))]
+                try:
+                    sa, _ea, _ = drive.produce(protos[0], pa)
+                    sb, _eb, _ = drive.produce(protos[0], pb)
+                except Exception:  # noqa: BLE001
+                    sa = None
+                if sa is not None and len(sa) >= 2 and len(sb) >= 2:
+                    from easynetwork.lowlevel._stream import StreamDataConsumer
+
+                    ctx.count("interleaved_streams_on_one_protocol")
+                    ca = gen.chunks_from_cuts(sa, gen.random_cuts(rng, len(sa)))
+                    cb = gen.chunks_from_cuts(sb, gen.random_cuts(rng, len(sb)))
+                    dead = StreamDataConsumer(case_protos[0])
+                    outd: list = []
+                    drive.drain_copy(dead, sa[: max(1, len(sa) // 2)], outd)  # abandoned mid-stream, never fed again
+                    consa, consb = StreamDataConsumer(case_protos[0]), StreamDataConsumer(case_protos[0])
+                    outa: list = []
+                    outb: list = []
+                    qa, qb = list(ca), list(cb)
+                    while qa or qb:
+                        if qa and (not qb or rng.random() < 0.5):
+                            drive.drain_copy(consa, qa.pop(0), outa)
+                        else:
+                            drive.drain_copy(consb, qb.pop(0), outb)
+                    for nm, out_, pk in (("A", outa, pa), ("B", outb, pb)):
+                        exp = [("P", cfg.expect(p)) for p in pk]
+                        if [repr(x) for x in out_] != [repr(x) for x in exp]:
+                            ctx.violation(f"interleaved-streams:{cfg.name.split('-')[0]}", f"two streams interleaved on one protocol object: stream {nm} delivered {out_!r:.200}, expected {exp!r:.200}", {"config": cfg.name, "path": "copy", "why": "interleaved", "packets": [repr(p) for p in pa + pb], "stream": {"hex": (sa + sb).hex()[:2000]}, "cuts": [], "hint": 0, "tag": [params["seed"], it, "interleaved"]})
+                            break
             if it == 0 and len(ctx.samples) < 3:
                 ctx.sample({"config": cfg.name, "packets": [repr(p) for p in packets][:3], "stream": stream[:80], "cuts": chunkings[3], "hint": hint})
 
